@@ -35,14 +35,32 @@ PLT = [("foo0", "KNone"), ("foo1", "KNone"), ("foo2", "KNone"), ("foo3", "KNone"
        ("setjmp", "KSetjmp"), ("_setjmp", "KSetjmp"), ("sigsetjmp", "KSetjmp"),
        ("longjmp", "KLongjmp"), ("siglongjmp", "KLongjmp"), ("__longjmp_chk", "KLongjmp"),
        ("fork", "KFlush"), ("exit", "KFlush"), ("daemon", "KFlush"),
-       ("_Unwind_RaiseException", "KExcept"), ("pthread_exit", "KNone"), ("__sigsetjmp", "KSetjmp")]
+       ("_Unwind_RaiseException", "KExcept"), ("pthread_exit", "KNone"), ("__sigsetjmp", "KSetjmp"), ("vfork", "KFlush")]
+VFORK_IDX = 16
 KIND_IDX = {}
 for _i, (_n, _k) in enumerate(PLT):
-    KIND_IDX.setdefault(_k, []).append(_i)
+    if _n != "vfork":                   # vfork is only used by the dedicated vfork sections
+        KIND_IDX.setdefault(_k, []).append(_i)
+PLT_FL_VFORK = 8
 PLT_FL_RESOLVE = 64
 
 
 # ================================================================= operations
+def top_lines(o):
+    """harness lines of one top-level operation"""
+    if o[0] == "Vfork":
+        _, i, sl, r, child = o
+        return ["PLT %d %d %d 0" % (i, sl, r), "VCHILD"] + [op_line(c) for c in child] + ["VPARENT"]
+    return [op_line(o)]
+
+
+def top_coq(o):
+    if o[0] == "Vfork":
+        _, i, sl, r, child = o
+        return "TVfork %d %d %d [%s]" % (100 + i, sl, r, "; ".join(op_coq(c) for c in child))
+    return "TOp (%s)" % op_coq(o)
+
+
 def op_line(o):
     t = o[0]
     if t == "Call":
@@ -84,7 +102,8 @@ class Prog:
     realistic=True: every frame makes all its calls at one fixed call-site slot (as compiled code does),
     so dead slots are re-used all the time; False: free choice of slots below the newest frame."""
 
-    def __init__(self, rng, tags, realistic):
+    def __init__(self, rng, tags, realistic, with_vfork=False):
+        self.with_vfork = with_vfork
         self.rng = rng
         self.ops = []
         self.frames = []          # newest first: dict(id, slot, ra, pend, cs)
@@ -233,6 +252,49 @@ class Prog:
             self.tags.add("longjmp-over-live-chain")
         return True
 
+    # ---- vfork ------------------------------------------------------------
+    def vfork(self):
+        """a vfork section: the child works on the parent's stack above the current frames, then execs/exits"""
+        if self.flight or self.exc or not self.frames:
+            return False
+        s, r = self.call_slot(), self.ra()
+        main_ops, self.ops = self.ops, []
+        saved = [dict(f) for f in self.frames]
+        floor = len(self.frames)
+        self.nid += 1                        # the frame of vfork itself (pushed, then popped by the child's return)
+        for _ in range(self.rng.randrange(0, 9)):
+            x = self.rng.random()
+            d = len(self.frames) - floor
+            if x < 0.35 and d < 5:
+                self.call()
+            elif x < 0.45:
+                self.ucall()
+            elif x < 0.6:
+                self.plt()
+            elif x < 0.68 and d > 0:
+                self.tail(self.rng.random() < 0.3)
+            elif x < 0.76 and d > 0:
+                self.setjmp()
+            elif x < 0.84 and d > 1:
+                # an exception caught inside the child (never below the frames of the parent)
+                n0 = len(self.frames)
+                keep = self.frames[d:]
+                self.frames = self.frames[:d]
+                ok = self.throw()
+                self.frames = self.frames + keep
+            elif d > 0:
+                self.ret()
+        if self.rng.random() < 0.7:
+            self.plt("KFlush")               # exec*/_exit stand-in: never returns
+            self.tags.add("vfork-child-execs-nested-%d" % min(len(self.frames) - floor - 1, 3))
+        child, self.ops = self.ops, main_ops
+        self.frames = saved
+        self.flight, self.exc, self.extra, self.stale = False, False, 0, []
+        self.emit("Vfork", VFORK_IDX, s, r, child)
+        self.tags.add("vfork")
+        self.tags.add("vfork-child-ops-%s" % ("0" if not child else ("1-3" if len(child) <= 3 else ">3")))
+        return True
+
     # ---- exceptions -------------------------------------------------------
     def small_activity(self):
         """a few nested calls that all return (used inside destructors / handlers)"""
@@ -327,6 +389,8 @@ class Prog:
                     self.plt("KFlush")
             elif x < 0.40:
                 self.tail(rng.random() < 0.3)
+            elif self.with_vfork and x < 0.47:
+                self.vfork()
             elif x < 0.52:
                 self.setjmp()
             elif x < 0.62:
@@ -416,7 +480,7 @@ class Harness:
         e = {k: v for k, v in os.environ.items() if not k.startswith("UFTRACE_")}
         e["UFTRACE_DIR"] = d
         e["UFTRACE_BUFFER"] = str(1 << 20)
-        text = "\nNEXT\n".join("\n".join(op_line(o) for o in ops) + "\nDUMP" for ops in scripts) + "\n"
+        text = "\nNEXT\n".join("\n".join(l for o in ops for l in top_lines(o)) + "\nDUMP" for ops in scripts) + "\n"
         p = subprocess.run([self.exe], input=text, env=e, capture_output=True, text=True, timeout=600)
         for f in os.listdir(d):
             if f.startswith("sid-"):
@@ -489,6 +553,18 @@ def case_coq(ops, res):
         coq.coq_bool(res["crashed"]))
 
 
+def case_coqT(ops, res):
+    ds = []
+    for d in res["digests"]:
+        ds += digest_flat(d)
+    rs = []
+    for r in res["recs"]:
+        rs += list(r)
+    return "([%s],\n  [%s],\n  [%s], %s)" % (
+        "; ".join(top_coq(o) for o in ops), ";".join("%d" % x for x in ds), ";".join("%d" % x for x in rs),
+        coq.coq_bool(res["crashed"]))
+
+
 PRE = """From Coq Require Import NArith List Bool.
 Import ListNotations.
 Require Import UV.C11.Model.
@@ -499,11 +575,19 @@ Local Open Scope N_scope.
 def flags_term(flags):
     items = []
     for name, kind in PLT:
-        items.append("(%s, %d)" % (kind, flags.get(name, 9999) & ~PLT_FL_RESOLVE))
+        f = flags.get(name, 9999) & ~PLT_FL_RESOLVE
+        if name == "vfork":
+            f = (f & ~PLT_FL_VFORK) if f & PLT_FL_VFORK else 9999       # FLUSH | VFORK expected
+        items.append("(%s, %d)" % (kind, f))
     return "[%s]" % "; ".join(items)
 
 
 def _eval_chunk(ctx, name, kind, cases, flags):
+    if kind == "vfork":
+        defs = "Definition cs : list fcaseT := [\n%s\n].\n" % ";\n".join(case_coqT(o, r) for o, r in cases)
+        res = coq.run_cases(ctx, name, PRE, defs, [("mismatch", "bad_indices fagreeT cs 0"), ("violations", "bad_indices fokT cs 0"),
+                                                   ("illegal", "bad_indices flegalT cs 0")])
+        return None if res is None else {k: coq.parse_nat_list(v) for k, v in res.items()}
     defs = "Definition cs : list fcase := [\n%s\n].\n" % ";\n".join(case_coq(o, r) for o, r in cases)
     evals = [("mismatch", "bad_indices fagree cs 0")]
     if kind == "legal":
@@ -517,14 +601,15 @@ def _eval_chunk(ctx, name, kind, cases, flags):
     return {k: coq.parse_nat_list(v) for k, v in res.items()}
 
 
-def evaluate_inproc(ctx, legal, free, flags, name="cases", chunk=40):
+def evaluate_inproc(ctx, legal, free, flags, name="cases", chunk=40, vforks=()):
     """model vs implementation and checker on implementation, inside Coq; chunks evaluated in parallel"""
     from concurrent.futures import ThreadPoolExecutor
     jobs = []
-    for kind, cases in (("legal", legal), ("free", free)):
+    for kind, cases in (("legal", legal), ("free", free), ("vfork", list(vforks))):
         for k in range(0, len(cases), chunk):
             jobs.append((kind, k, cases[k:k + chunk]))
-    out = {"mismatch_legal": [], "mismatch_free": [], "violations": [], "illegal": [], "flags_bad": []}
+    out = {"mismatch_legal": [], "mismatch_free": [], "mismatch_vfork": [], "violations": [], "illegal": [], "flags_bad": [],
+           "violations_vfork": [], "illegal_vfork": []}
     if not jobs:
         return out
     with ThreadPoolExecutor(max_workers=8) as ex:
@@ -535,8 +620,9 @@ def evaluate_inproc(ctx, legal, free, flags, name="cases", chunk=40):
         if r is None:
             return None
         out["mismatch_" + kind] += [k + i for i in r["mismatch"]]
-        out["violations"] += [k + i for i in r.get("violations", [])]
-        out["illegal"] += [k + i for i in r.get("illegal", [])]
+        sfx = "_vfork" if kind == "vfork" else ""
+        out["violations" + sfx] += [k + i for i in r.get("violations", [])]
+        out["illegal" + sfx] += [k + i for i in r.get("illegal", [])]
         out["flags_bad"] += r.get("flags_bad", [])
     return out
 
@@ -1267,9 +1353,19 @@ def run_inproc(ctx, objdir):
     frees = [MIXED_CHAIN, WITNESS_FENTRY]
     for i in range(ctx.n(200, 5000)):
         frees.append(gen_free(ctx.rng, ctx.rng.choice([8, 20, 40])))
-    flags, results = h.run_many([ops for _, ops in progs] + frees)
+    vprogs = []
+    for i in range(ctx.n(60, 1500)):
+        tags = set()
+        realistic = ctx.rng.random() < 0.6
+        tags.add("slots:call-site" if realistic else "slots:free")
+        vprogs.append((tags, Prog(ctx.rng, tags, realistic, with_vfork=True).run(ctx.rng.choice([15, 30, 50]))))
+    flags, results = h.run_many([ops for _, ops in progs] + frees + [ops for _, ops in vprogs])
     legal = [(ops, res) for (_, ops), res in zip(progs, results)]
-    free = list(zip(frees, results[len(progs):]))
+    free = list(zip(frees, results[len(progs):len(progs) + len(frees)]))
+    vforks = [(ops, res) for (_, ops), res in zip(vprogs, results[len(progs) + len(frees):])]
+    for (tags, ops), res in zip(vprogs, results[len(progs) + len(frees):]):
+        ctx.case(key=("vfork", repr(ops)), nontrivial=any(o[0] == "Vfork" for o in ops),
+                 tags=["inproc:" + t for t in sorted(tags)] + ["inproc:vfork-program"], size=len(ops))
     for (tags, ops), res in zip(progs, results):
         ctx.case(key=("legal", tuple(ops)), nontrivial=has_nonlocal(ops),
                  tags=["inproc:" + t for t in sorted(tags)], size=len(ops),
@@ -1282,9 +1378,26 @@ def run_inproc(ctx, objdir):
                       "a tail-call chain mixing a PLT entry and an mcount entry is re-hooked with the trampoline of the oldest "
                       "entry: plthook_exit `invalid dynsym idx` ends the process", bool(free[0][1]["crashed"]),
                       {"mode": "inproc", "case": case_json(free[0][0], free[0][1])})
-    ev = evaluate_inproc(ctx, legal, free, flags)
+    ev = evaluate_inproc(ctx, legal, free, flags, vforks=vforks)
     if ev is None:
         return None
+    if ev["illegal_vfork"]:
+        ops, res = vforks[ev["illegal_vfork"][0]]
+        ctx.broken("generator bug: %d generated vfork program(s) are outside the checker's domain" % len(ev["illegal_vfork"]),
+                   json.dumps([top_lines(o) for o in ops])[:3000])
+    for i in [i for i in ev["violations_vfork"] if i not in ev["illegal_vfork"]][:3]:
+        ops, res = vforks[i]
+        ctx.violation("C11 violated in-process (vfork): a return in the vfork child or in the parent after it does not reach its "
+                      "real caller / wrong number of exit hooks",
+                      {"mode": "inproc-vfork", "script": [l for o in ops for l in top_lines(o)],
+                       "impl_digests": [list(d[:3]) + [[list(e) for e in d[3]]] + list(d[4:]) for d in res["digests"]]}, True)
+    if ev["mismatch_vfork"] and not ev["violations_vfork"] and not ev["violations"]:
+        ops, res = vforks[ev["mismatch_vfork"][0]]
+        ctx.violation("model and libmcount disagree on %d program(s) with vfork sections" % len(ev["mismatch_vfork"]),
+                      {"mode": "inproc-vfork", "correspondence": "C11.Model.lstepT vs libmcount (prepare/setup/restore_vfork)",
+                       "script": [l for o in ops for l in top_lines(o)],
+                       "impl_digests": [list(d[:3]) + [[list(e) for e in d[3]]] + list(d[4:]) for d in res["digests"]],
+                       "impl_records": [list(r) for r in res["recs"]], "why": res["why"]}, False)
     if ev["illegal"]:
         ops, res = legal[ev["illegal"][0]]
         ctx.broken("generator bug: %d generated program(s) are outside the checker's domain (Model.rstep rejects them)"
